@@ -20,6 +20,9 @@ func GetBidMasterStore(ctx *action.Context) (*bid_data.BidMasterStore, error) {
 }
 
 func IsAssetAvailable(ctx *action.Context, assetName string, assetType bid_data.BidAssetType, assetOwner keys.Address) (bool, error) {
+	if _, known := BidAssetMap[assetType]; !known {
+		return false, bid_data.ErrInvalidAsset
+	}
 	bidAssetTemplate := BidAssetMap[assetType]
 	bidAsset := bidAssetTemplate.NewAssetWithName(assetName)
 	assetOk, err := bidAsset.ValidateAsset(ctx, assetOwner)
@@ -27,6 +30,9 @@ func IsAssetAvailable(ctx *action.Context, assetName string, assetType bid_data.
 }
 
 func ExchangeAsset(ctx *action.Context, assetName string, assetType bid_data.BidAssetType, assetOwner keys.Address, bidder keys.Address) (bool, error) {
+	if _, known := BidAssetMap[assetType]; !known {
+		return false, bid_data.ErrInvalidAsset
+	}
 	bidAssetTemplate := BidAssetMap[assetType]
 	bidAsset := bidAssetTemplate.NewAssetWithName(assetName)
 	exchangeOk, err := bidAsset.ExchangeAsset(ctx, bidder, assetOwner)
